@@ -67,3 +67,25 @@ var worldNotes = &world{
 		{name: "broken", valid: false, text: "// n\na = ; b = 1;"},
 	},
 }
+
+// W-anon: a field whose type is an anonymous struct.  Build accepts it and it parses; on the
+// unchanged tree Parser.String() panics for it (that is C14's subject, not claimed here) — every
+// String() call must then panic alike.
+type anFile struct {
+	Pos   lexer.Position
+	Pairs []struct {
+		Key string `@Ident "="`
+		Val string `@( Ident | Int )`
+	} `( @@ ";" )*`
+}
+
+var worldAnon = &world{
+	name: "anon", lexerKind: "text/scanner", junk: "\n= =",
+	build: func(o buildOpts) PH { return mustPH[anFile](nil, applyCommon(o, nil, nil)...) },
+	docs: []doc{
+		{name: "pairs", valid: true, text: "a = 1; b = c;"},
+		flatDoc("flat", "", "k = v;", ""),
+		{name: "empty", valid: true, text: ""},
+		{name: "broken", valid: false, text: "a = 1; b = ;"},
+	},
+}
